@@ -122,7 +122,7 @@ def image(rng, shape, smooth):
 
 def workload(ctx, lentil):
     rng = ctx.rng
-    n = 150 if ctx.tier == 'quick' else 1200
+    n = ctx.count(150, 1200)
     hi = 40 if ctx.tier == 'quick' else 72
     for i in range(n):
         kind = ['pixel', 'jitter', 'smear'][i % 3]
